@@ -1186,7 +1186,7 @@ func ruleStepBuffers(r *Run) {
 						writers = append(writers, x)
 					}
 				case *ssa.Call:
-					if (invokeIs(x, "Next") || (staticCallee(x) != nil && staticCallee(x).Name() == "Next")) && len(x.Call.Args) > 0 {
+					if (invokeIs(x, "Next") || (staticCallee(x) != nil && cname(staticCallee(x)) == "Next")) && len(x.Call.Args) > 0 {
 						if originValueIn(x.Call.Args[len(x.Call.Args)-1], funcGroup(fn)) == ssa.Value(fn.Params[1]) {
 							writers = append(writers, x)
 						}
